@@ -82,6 +82,7 @@ Proof.
   - rewrite Heqb1, orb_false_r in Oh. apply negb_true_iff in Oh. simpl. rewrite ?Oh, ?Ot. reflexivity.
   - apply bfc_nofc. unfold set_prog. simpl. rewrite upd_same. simpl. exact Oh.
   - destruct (dcb s d); reflexivity.
+  - destruct (dcb s d); reflexivity.
 Qed.
 
 Lemma bfc_tick s ts p : bfc (s <| clock := ts |>) p = bfc s p.
